@@ -52,9 +52,10 @@ RULE = (
 )
 BOUNDS = {
     "quick": {"parents": ["A4", "B4", "C4", "D4"], "max_rows": 4, "concat_list_len": 3,
-              "sub_screens": "all 2^N row subsets of each parent"},
+              "sub_screens": "all 2^N row subsets of each parent",
+              "held_views": "every view recipe (observed / unobserved / inverse / each plate / all 2^N subsets) x every non-empty union of unobserved plates filled in by set_observed afterwards"},
     "thorough": {"parents": ["A4", "B4", "C4", "D4", "A5", "B5"], "max_rows": 5, "concat_list_len": 3,
-                 "sub_screens": "all 2^N row subsets of each parent"},
+                 "sub_screens": "all 2^N row subsets of each parent", "held_views": "as quick, on all six parents"},
 }
 ASSUMPTIONS = [
     "'the parent's values' are the parent's attribute arrays as read when the parent was built; an operation that "
@@ -576,10 +577,128 @@ def plan(tier, seed):
             cost += c
         if cur:
             items.append({"parent": p, "subs": cur, "concat_len": L})
+    for p in names:
+        if any(not r[4] for r in PARENTS[p]):
+            items.append({"held": True, "parent": p})
     return items
 
 
+# ------------------------------------------------------------------ views held while results are recorded
+def held_recipes(n, plate_ids):
+    out = [("subset_observed",), ("subset_unobserved",), ("invert_observed",)]
+    out += [("get_plate", int(p)) for p in plate_ids] + [("plates_item", k) for k in range(len(plate_ids))]
+    out += [("subset", b) for b in range(1 << n)]
+    return out
+
+
+def held_build(screen, recipe, n):
+    k = recipe[0]
+    if k == "subset_observed":
+        return screen.subset_observed()
+    if k == "subset_unobserved":
+        return screen.subset_unobserved()
+    if k == "invert_observed":
+        v = screen.subset_observed()
+        return None if v is None else v.invert()
+    if k == "get_plate":
+        return screen.get_plate(recipe[1])
+    if k == "plates_item":
+        return screen.plates[recipe[1]]
+    return screen.subset(vec(recipe[1], n))
+
+
+def held_check(screen, v, n, ste_ok):
+    """A view reports the parent's (current) values at the rows its selection_vector names, and materialises to those rows."""
+    bad = []
+    if not well_formed(v, n):
+        return [("C14|held|malformed-selection", f"selection_vector is {getattr(v, 'selection_vector', None)!r}")]
+    sv = np.array(v.selection_vector, dtype=bool, copy=True)
+    rows = np.flatnonzero(sv).tolist()
+    for a in ATTRS:
+        got, want = tolist(getattr(v, a)), tolist(np.asarray(getattr(screen, a))[sv])
+        if got != want:
+            bad.append((f"C14|held|{a}", f"view selecting rows {rows} reports {a}={got}, the parent's rows give {want}"))
+    if v.size != len(rows):
+        bad.append(("C14|held|size", f"view selecting rows {rows} reports size {v.size}"))
+    if ste_ok and screen.single_treatment_effects is not None:
+        got, want = v.single_treatment_effects, tolist(np.asarray(screen.single_treatment_effects)[sv])
+        if got is None or tolist(got) != want:
+            bad.append(("C14|held|single_treatment_effects", f"view selecting rows {rows} reports single effects {None if got is None else tolist(got)}, parent rows give {want}"))
+    if rows:
+        try:
+            m = v.to_screen()
+        except Exception as exc:  # noqa: BLE001
+            if not exception_origin_in_repo(exc):
+                raise
+            bad.append(("C14|held|to_screen-raised", f"to_screen of rows {rows} raised {short_exc(exc)}"))
+        else:
+            for a in ROW_ATTRS:
+                got, want = tolist(getattr(m, a)), tolist(np.asarray(getattr(screen, a))[sv])
+                if got != want:
+                    bad.append((f"C14|held|to_screen|{a}", f"materialised view of rows {rows} has {a}={got}, parent rows give {want}"))
+    return bad
+
+
+def run_held(item, col):
+    """History: take a view, then record results on the parent (Screen.set_observed, the documented way to fill in a plate),
+    then read the view.  Which rows an observed/unobserved view selects afterwards is free; that its attributes, size and
+    materialisation agree with the rows it says it selects is not."""
+    pname = item["parent"]
+    rows = PARENTS[pname]
+    n = len(rows)
+    probe = make_screen(rows, control=CTL)
+    masked = [i for i, r in enumerate(rows) if not r[4]]
+    plate_ids = sorted(int(p) for p in np.unique(probe.plate_ids))
+    try:
+        probe.single_treatment_effects
+        ste_ok = True
+    except Exception:  # noqa: BLE001
+        ste_ok = False
+    recipes = held_recipes(n, plate_ids)
+    # results arrive plate by plate (a screen with a part-observed plate is not a legal screen): every non-empty union of unobserved plates
+    by_plate = {}
+    for i in masked:
+        by_plate.setdefault(rows[i][1], []).append(i)
+    groups = list(by_plate.values())
+    for k in range(1, len(groups) + 1):
+        for chosen in itertools.combinations(groups, k):
+            fill = tuple(sorted(i for g in chosen for i in g))
+            fbits = sum(1 << i for i in fill)
+            for recipe in recipes:
+                case = {"held": True, "parent": pname, "recipe": list(recipe), "fill": list(fill)}
+                col.evaluations += 1
+                col.states += 1
+                col.transitions += 2
+                screen = make_screen(rows, control=CTL)
+                try:
+                    v = held_build(screen, recipe, n)
+                except Exception as exc:  # noqa: BLE001
+                    if not exception_origin_in_repo(exc):
+                        raise
+                    col.refused += 1
+                    continue
+                if v is None:
+                    col.outcome("held", "none")
+                    continue
+                before = bits_of(v.selection_vector)
+                screen.set_observed(vec(fbits, n), np.array([0.9 - 0.05 * i for i in fill], dtype=float))
+                for sig, msg in held_check(screen, v, n, ste_ok):
+                    col.violation(sig, f"parent {pname}, view {recipe} taken, then set_observed(rows {list(fill)}): {msg}", case)
+                after = bits_of(v.selection_vector) if well_formed(v, n) else -1
+                col.outcome("held", recipe[0], before == after)
+                col.nontriv("held", pname, recipe, fill)
+                # fresh views split the screen by its (new) mask
+                new_mask = sum(1 << i for i, r in enumerate(rows) if r[4]) | fbits
+                for name, want in (("subset_observed", new_mask), ("subset_unobserved", ((1 << n) - 1) & ~new_mask)):
+                    f = getattr(screen, name)()
+                    got = 0 if f is None else bits_of(f.selection_vector)
+                    if got != want:
+                        col.violation(f"C14|held|{name}", f"parent {pname} after set_observed(rows {list(fill)}): {name}() selects {rows_of_bits(got)}, mask says {rows_of_bits(want)}", case)
+
+
 def run_item(item, col, tier):
+    if item.get("held"):
+        return run_held(item, col)
     for sub in item["subs"]:
         ctx = Ctx(item["parent"], sub)
         col.evaluations += 1
@@ -593,6 +712,8 @@ def run_item(item, col, tier):
 
 
 def replay(case, col):
+    if case.get("held"):
+        return run_held({"held": True, "parent": case["parent"]}, col)
     ctx = Ctx(case["parent"], case["sub"])
     print("parent", case["parent"], "rows:")
     for i, r in enumerate(PARENTS[case["parent"]]):
